@@ -310,6 +310,15 @@ func indexHeader(
 				oldName = hdr.PAXRecords[records.STFSRecordReplacesName]
 			}
 
+			// Move first so that the edits below apply to the entry under its new name (will be a no-op if the header has been moved before)
+			move := func() error {
+				if !moveAfterEdits {
+					return nil
+				}
+
+				return metadataPersister.MoveHeader(context.Background(), oldName, hdr.Name, record, block)
+			}
+
 			var newHdr *models.Header
 			if replacesContent, ok := hdr.PAXRecords[records.STFSRecordReplacesContent]; ok && replacesContent == records.STFSRecordReplacesContentTrue {
 				// Content & metadata update; use the new record & block
@@ -320,13 +329,27 @@ func indexHeader(
 
 				newHdr = h
 
+				if err := move(); err != nil {
+					return err
+				}
+
 				if err := metadataPersister.UpdateHeaderMetadata(context.Background(), converters.DBHeaderToConfigHeader(newHdr)); err != nil {
 					return err
 				}
 			} else {
 				// Metadata-only update; use the old record & block
 				oldHdr, err := metadataPersister.GetHeader(context.Background(), oldName)
-				if err == nil {
+
+				// To support ignoring previous `Move` operations, we need to ignore non-existent headers here, as moving changes the primary keys
+				if err != nil && err != sql.ErrNoRows {
+					return err
+				}
+
+				if err := move(); err != nil {
+					return err
+				}
+
+				if oldHdr != nil {
 					h, err := converters.TarHeaderToDBHeader(oldHdr.Record, record, oldHdr.Block, block, hdr)
 					if err != nil {
 						return err
@@ -337,18 +360,6 @@ func indexHeader(
 					if err := metadataPersister.UpdateHeaderMetadata(context.Background(), converters.DBHeaderToConfigHeader(newHdr)); err != nil {
 						return err
 					}
-				}
-
-				// To support ignoring previous `Move` operations, we need to ignore non-existent headers here, as moving changes the primary keys
-				if err != nil && err != sql.ErrNoRows {
-					return err
-				}
-			}
-
-			if moveAfterEdits {
-				// Move header (will be a no-op if the header has been moved before)
-				if err := metadataPersister.MoveHeader(context.Background(), oldName, hdr.Name, record, block); err != nil {
-					return err
 				}
 			}
 
